@@ -127,11 +127,14 @@ func (x *gen) exprText(d int) string {
 			op = "=="
 		}
 		l, rr := x.exprText(d-1), x.exprText(d-1)
-		sep := " "
-		if r.Intn(6) == 0 {
+		sep, pre := " ", " "
+		switch r.Intn(9) {
+		case 0:
 			sep = "\n            "
+		case 1:
+			pre = "\n            " // operator-leading line break
 		}
-		s := l + " " + op + sep + rr
+		s := l + pre + op + sep + rr
 		if r.Intn(3) == 0 {
 			s = "(" + s + ")"
 		}
